@@ -220,4 +220,11 @@ func (borderRadius *borderRadiusTracker) compactRules(rules []css_ast.Rule, keyR
 		KeyRange:  keyRange,
 		Important: borderRadius.important,
 	}}
+
+	// All four corners now live in the combined declaration: a later longhand
+	// that replaces one corner must not blank it (it still provides the others)
+	for i := range borderRadius.corners {
+		borderRadius.corners[i].ruleIndex = lastRuleIndex
+		borderRadius.corners[i].wasSingleRule = false
+	}
 }
